@@ -151,6 +151,22 @@ def run_unit(ck, unit):
                         model = sorted((p, s, s + len(nd)) for p, nd in enumerate(needles) for s in range(0, len(hay) - len(nd) + 1)
                                        if fold(hay[s:s + len(nd)]) == fold(nd))
                         n += 1
+                        # non-overlapping contract (find_iter), for needle sets without an empty needle
+                        if all(needles):
+                            r2 = br.call(cmd='aho', needles=[list(x) for x in needles], i=ins, hay=list(hay), overlapping=False)
+                            real2 = [tuple(x) for x in r2['hits']]
+                            model2 = []
+                            at = 0
+                            while True:
+                                cs = sorted([c for c in model if c[1] >= at], key=lambda c: (c[2], -(c[2] - c[1]), c[0]))
+                                if not cs:
+                                    break
+                                model2.append(cs[0])
+                                at = cs[0][2]
+                            if real2 != model2:
+                                ck.inconclusive.append('aho find_iter model disagrees with the crate: needles=%r i=%s hay=%r real=%r model=%r' % (
+                                    needles, ins, hay, real2, model2))
+                                return
                         if real != model:
                             ck.inconclusive.append('aho contract model disagrees with the crate: needles=%r i=%s hay=%r real=%r model=%r' % (
                                 needles, ins, hay, real, model))
@@ -372,6 +388,21 @@ def batch_unit(ck, members):
     r = br.call(cmd='load', yaml=y, opts=None)
     v = tr.evaluate(r)
     label = 'batch ' + ','.join(members)
+    unconfirmed, confirmed = set(), 0
+    for docj, what in probe_docs(r):
+        ck.obligations += 1
+        nq = br.call(cmd='eval', yaml=y, opts=None, doc=docj, mode='flat')
+        ns = [br.call(cmd='eval', yaml=s_[0], opts=None, doc=docj, mode='flat') for s_ in singles]
+        path = ck.write_replay(safe(label) + '_engine', {'rule': y, 'doc': docj, 'what': what, 'native_list': nq,
+                                                         'member_rules': [s_[0] for s_ in singles], 'native_members': ns})
+        if nq.get('verdict') != any(x.get('verdict') for x in ns):
+            confirmed += 1
+            if confirmed == 1:
+                ck.violations.append((path, '%s: %s; list=%s members=%s on %s' % (label, what, nq.get('verdict'), [x.get('verdict') for x in ns], json.dumps(docj))))
+        else:
+            unconfirmed.add('%s: %s (the model of this tree is not valid)' % (label, what))
+    if unconfirmed and not confirmed:
+        ck.inconclusive.append(sorted(unconfirmed)[0])
 
     def on_sat(model):
         docj = tr.render_doc(model)
